@@ -42,3 +42,32 @@ func Bad_E5Rstorage_overwritten(id string) (string, error) {
 	}
 	return v, nil
 }
+
+func ctlParse(id string) (*n1doc, error) {
+	if id == "" {
+		return nil, errors.New("bad")
+	}
+	return &n1doc{Name: id}, nil
+}
+
+// a guard that disappeared: err is overwritten by the next call, d may be nil
+func Bad_E5Rexamined_lostguard(id string) (string, error) {
+	d, err := ctlParse(id)
+	v, err := ctlStorageCall(d.Name)
+	if err != nil {
+		return "", err
+	}
+	return v, nil
+}
+
+func Good_E5Rexamined_checked(id string) (string, error) {
+	d, err := ctlParse(id)
+	if err != nil {
+		return "", err
+	}
+	v, err := ctlStorageCall(d.Name)
+	if err != nil {
+		return "", err
+	}
+	return v, nil
+}
